@@ -63,21 +63,31 @@ def key_table(prog: Program, rep: Report) -> None:
     rule = "R18.1"
     v1 = cfg(prog, "configure_v1")
     v2 = cfg(prog, "configure_v2")
-    for fi, root in ((v1, "conf2"), (v2, "config")):
-        writes = section_writes(fi, root)
-        for sec, key, node in writes:
-            if key is None or sec not in ROLES:
-                continue
-            ctor, names, required, has_kwargs = ctor_params(prog, sec)
+    # v2: keys the normaliser writes
+    for sec, key, node in section_writes(v2, "config"):
+        if key is None or sec not in ROLES:
+            continue
+        ctor, names, required, has_kwargs = ctor_params(prog, sec)
+        ok = key == "module" or key in names or has_kwargs
+        rep.check(rule, v2.qual, f"{sec}.{key}", ok, what_bad=f"key {key!r} written into section {sec!r} is not a parameter of {ctor.qual} ({names}): the constructor raises TypeError, or the setting is silently lost", what_ok="constructor parameter" if key != "module" else "consumed by init_module", loc=v2.loc(node))
+    # v1: keys of the translated dictionary, over every outcome of the symbolic evaluation
+    full = _v1_status(rep, rule, v1, v1_outcomes(prog, True), "all optional v1 keys present")
+    bare = _v1_status(rep, rule, v1, v1_outcomes(prog, False), "no optional v1 key present")
+    for sec in ROLES:
+        ctor, names, required, has_kwargs = ctor_params(prog, sec)
+        keys = set()
+        for o in full + bare:
+            d = o["result"].get(sec)
+            if isinstance(d, dict):
+                keys |= {k for k in d if isinstance(k, str)}
+                if any(not isinstance(k, str) for k in d) and not has_kwargs and sec != "ibm":
+                    rep.bad(rule, v1.qual, f"{sec}.<computed key>", f"section {sec!r} receives keys copied from the file ({[k for k in d if not isinstance(k, str)][:2]}): {ctor.qual} takes no arbitrary keywords", v1.loc())
+        for key in sorted(keys):
             ok = key == "module" or key in names or has_kwargs
-            rep.check(rule, fi.qual, f"{sec}.{key}", ok, what_bad=f"key {key!r} written into section {sec!r} is not a parameter of {ctor.qual} ({names}): the constructor raises TypeError, or the setting is silently lost", what_ok="constructor parameter" if key != "module" else "consumed by init_module", loc=fi.loc(node))
-    # required parameters produced by v1
-    w1 = section_writes(v1, "conf2")
-    for role in ROLES:
-        ctor, names, required, _ = ctor_params(prog, role)
-        for p in required:
-            ok = any(s == role and k == p for s, k, _ in w1)
-            rep.check(rule, v1.qual, f"required parameter {role}.{p}", ok, what_bad=f"{ctor.qual} requires {p!r} but configure_v1 never produces it", what_ok="produced", loc=v1.loc())
+            rep.check(rule, v1.qual, f"{sec}.{key}", ok, what_bad=f"key {key!r} written into section {sec!r} is not a parameter of {ctor.qual} ({names}): the constructor raises TypeError, or the setting is silently lost", what_ok="constructor parameter" if key != "module" else "consumed by init_module", loc=v1.loc())
+        for p_ in required:
+            ok = bool(bare) and all(isinstance(o["result"].get(sec), dict) and p_ in o["result"][sec] for o in bare + full)
+            rep.check(rule, v1.qual, f"required parameter {sec}.{p_}", ok, what_bad=f"{ctor.qual} requires {p_!r} but configure_v1 does not produce it for every v1 file", what_ok="produced", loc=v1.loc())
 
 
 def sections(prog: Program, rep: Report) -> None:
@@ -89,94 +99,60 @@ def sections(prog: Program, rep: Report) -> None:
             reads.add(n.slice.value)
     v1 = cfg(prog, "configure_v1")
     v2 = cfg(prog, "configure_v2")
-    w1 = section_writes(v1, "conf2")
-    produced_uncond = set()
-    produced_cond = set()
-    for st in v1.node.body:
-        for s, k, node in w1:
-            if k is None and node is st:
-                produced_uncond.add(s)
-    for s, k, node in w1:
-        if k is None and s not in produced_uncond:
-            produced_cond.add(s)
-    # an if/else that assigns the section in both arms counts as unconditional
-    for st in v1.node.body:
-        if isinstance(st, ast.If) and st.orelse:
-            a = {s for s, k, node in w1 if k is None and any(node is x for x in ast.walk(ast.Module(body=st.body, type_ignores=[])))}
-            b = {s for s, k, node in w1 if k is None and any(node is x for x in ast.walk(ast.Module(body=st.orelse, type_ignores=[])))}
-            produced_uncond |= a & b
+    outs = _v1_status(rep, rule, v1, v1_outcomes(prog, True), "all optional v1 keys present") + _v1_status(rep, rule, v1, v1_outcomes(prog, False), "no optional v1 key present")
     for sec in sorted(reads):
-        if sec == "warm_start":
-            ok = sec in produced_uncond or sec in produced_cond
-            rep.check(rule, v1.qual, f"section {sec!r} (v1 has no such vocabulary: defaulted when absent)", ok, what_bad="Model.__init__ reads config['warm_start'] but configure_v1 never sets it", what_ok="defaulted to {}", loc=v1.loc())
-        else:
-            rep.check(rule, v1.qual, f"section {sec!r} produced on every path", sec in produced_uncond, what_bad=f"Model.__init__ reads config[{sec!r}] but configure_v1 produces it only conditionally or never", what_ok="produced", loc=v1.loc())
-    # v2: defaulted or dereferenced
-    defaulted = set()
-    deref = set()
-    for n in walk_no_nested(v2.node):
-        if isinstance(n, ast.If) and isinstance(n.test, ast.Compare) and isinstance(n.test.ops[0], ast.NotIn) and unparse(n.test.comparators[0]) == "config" and isinstance(n.test.left, ast.Constant):
-            sec = n.test.left.value
-            if any(isinstance(x, ast.Assign) and unparse(x.targets[0]) == f"config[{sec!r}]" for x in n.body):
-                defaulted.add(sec)
-    for st in v2.node.body:
-        for n in ast.walk(st):
-            if isinstance(n, ast.Subscript) and unparse(n.value) == "config" and isinstance(n.slice, ast.Constant) and isinstance(n.ctx, ast.Load):
-                # unguarded at statement level (not inside an `in config` test of the same section)
-                deref.add(n.slice.value)
-    # optional sections (documented as such; the property: "omitted optional sections behave as empty ones",
-    # "omitting the grid section uses the forcing module"): must be defaulted, not merely dereferenced
+        missing = [o for o in outs if not isinstance(o["result"].get(sec), dict)]
+        label = f"section {sec!r} (v1 has no such vocabulary: defaulted when absent)" if sec == "warm_start" else f"section {sec!r} produced on every path"
+        rep.check(rule, v1.qual, label, bool(outs) and not missing, what_bad=f"Model.__init__ reads config[{sec!r}] but configure_v1 leaves it out for some v1 files ({len(missing)} of {len(outs)} evaluated outcomes)", what_ok="produced", loc=v1.loc())
+    # v2: an omitted optional section is defaulted to {}, an omitted mandatory one stops cleanly (KeyError)
     OPTIONAL = {"state", "grid", "ibm", "warm_start"}
     for sec in sorted(reads):
-        ok = sec in defaulted or (sec in deref and sec not in OPTIONAL)
-        how = "defaulted" if sec in defaulted else "dereferenced (KeyError -> clean stop)"
-        if sec in OPTIONAL and sec not in defaulted:
-            how = "optional section not defaulted"
-        rep.check(rule, v2.qual, f"section {sec!r}: {how if ok else 'neither defaulted nor dereferenced'}", ok, what_bad=f"a v2 file without section {sec!r} reaches Model.__init__ and fails there with a raw KeyError", what_ok=how, loc=v2.loc())
-    for sec in ("tracker", "release"):
-        none_fix = any(isinstance(n, ast.If) and unparse(n.test) == f"config[{sec!r}] is None" and any(isinstance(x, ast.Assign) and unparse(x.targets[0]) == f"config[{sec!r}]" for x in n.body) for n in walk_no_nested(v2.node))
-        rep.check(rule, v2.qual, f"empty section {sec!r} (None) is replaced by a dict", none_fix, what_bad="an empty YAML section is None: init_module calls .get on it", what_ok="replaced", loc=v2.loc())
+        # optional sections: omitted from an otherwise complete file; mandatory ones: omitted from a bare
+        # file (no optional key given), where the normaliser has to look at them
+        outs2 = v2_outcomes(prog, absent=[(sec,)]) if sec in OPTIONAL else v2_outcomes(prog, absent=[(sec,)], default_presence=False)
+        st = {o["status"] for o in outs2}
+        if "unsupported" in st:
+            rep.add(rule, v2.qual, f"section {sec!r} omitted", None, f"outside the evaluator: {[o['detail'] for o in outs2 if o['status'] == 'unsupported'][0]}", v2.loc())
+            continue
+        defaulted = st == {"ok"} and all(isinstance(o["overlay"].get((), {}).get(sec), dict) for o in outs2)
+        stops = st == {"missing"} and all(o["detail"].split(".")[0] == sec for o in outs2)
+        ok = defaulted if sec in OPTIONAL else (defaulted or stops)
+        how = "defaulted" if defaulted else "dereferenced (KeyError -> clean stop)" if stops else "optional section not defaulted" if sec in OPTIONAL else "neither defaulted nor dereferenced"
+        rep.check(rule, v2.qual, f"section {sec!r}: {how}", ok, what_bad=f"a v2 file without section {sec!r} is not handled by the normaliser (outcomes {sorted(st)}): it reaches Model.__init__ and fails there with a raw KeyError" if sec not in OPTIONAL else f"the optional section {sec!r} must behave as an empty one when omitted (outcomes {sorted(st)})", what_ok=how, loc=v2.loc())
+    for sec, want in (("tracker", {}), ("release", None)):
+        outs2 = v2_outcomes(prog, none_paths=[(sec,)])
+        vals = [o["overlay"].get((), {}).get(sec) for o in outs2 if o["status"] == "ok"]
+        ok = bool(vals) and len(vals) == len(outs2) and all(isinstance(v, dict) for v in vals)
+        rep.check(rule, v2.qual, f"empty section {sec!r} (None) is replaced by a dict", ok, what_bad=f"an empty YAML section is None: init_module calls .get on it (got {vals[:1]}, outcomes {[o['status'] for o in outs2][:3]})", what_ok="replaced", loc=v2.loc())
 
 
 def optional_discipline(prog: Program, rep: Report) -> None:
     rule = "R18.3"
     v2 = cfg(prog, "configure_v2")
-    pm = {}
-    for p in ast.walk(v2.node):
-        for c in ast.iter_child_nodes(p):
-            pm[id(c)] = p
-    n_sites = 0
-    for n in walk_no_nested(v2.node):
-        if isinstance(n, ast.Subscript) and isinstance(n.ctx, ast.Load) and isinstance(n.slice, ast.Constant) and isinstance(n.value, ast.Subscript) and unparse(n.value.value) == "config" and isinstance(n.value.slice, ast.Constant):
-            sec, key = n.value.slice.value, n.slice.value
-            if sec not in ROLES and sec != "warm_start":
-                continue
-            optional = key == "module"
-            if sec in ROLES and key != "module":
-                ctor, names, required, _ = ctor_params(prog, sec)
-                optional = key not in required
-            if sec == "warm_start":
-                optional = True
-            n_sites += 1
-            if not optional:
-                rep.ok(rule, v2.qual, f"config[{sec!r}][{key!r}] (mandatory key: KeyError -> clean stop)", "", v2.loc(n))
-                continue
-            # guarded by a membership test on an enclosing If
-            guarded = False
-            cur = n
-            while id(cur) in pm:
-                par = pm[id(cur)]
-                if isinstance(par, ast.If):
-                    in_body = any(any(x is cur for x in ast.walk(s)) for s in par.body)
-                    t = unparse(par.test)
-                    if in_body and f"{key!r} in config[{sec!r}]" in t and f"{key!r} not in config[{sec!r}]" not in t:
-                        guarded = True
-                cur = par
-            rep.check(rule, v2.qual, f"config[{sec!r}][{key!r}] (optional key)", guarded, what_bad=f"the consumer treats {key!r} as optional (default / .get) but the normaliser subscripts it unguarded: a file that omits it stops with \"Missing key\"", what_ok="guarded by a membership test", loc=v2.loc(n))
-    if n_sites < 3:
-        raise AnalysisError("configure_v2: fewer key reads than confirmed by hand")
+    # optional keys: constructor parameters with a default, `module`, everything in warm_start
+    optional = []
+    for sec in ROLES:
+        ctor, names, required, _ = ctor_params(prog, sec)
+        optional += [(sec, k) for k in names if k not in required] + [(sec, "module")]
+    optional += [("warm_start", "filename"), ("warm_start", "variables")]
+    n = 0
+    for sec, key in optional:
+        outs2 = v2_outcomes(prog, absent=[(sec, key)])
+        miss = [o for o in outs2 if o["status"] == "missing" and o["detail"] == f"{sec}.{key}"]
+        unsup = [o for o in outs2 if o["status"] == "unsupported"]
+        if unsup:
+            rep.add(rule, v2.qual, f"config[{sec!r}][{key!r}] omitted (optional key)", None, f"outside the evaluator: {unsup[0]['detail']}", v2.loc())
+            continue
+        n += 1
+        rep.check(rule, v2.qual, f"config[{sec!r}][{key!r}] omitted (optional key)", not miss, what_bad=f"the consumer treats {key!r} as optional (default / .get) but the normaliser subscripts it unguarded: a file that omits it stops with \"Missing key\"", what_ok="the normaliser completes", loc=v2.loc())
+    # all optional keys omitted together
+    outs2 = v2_outcomes(prog, absent=optional)
+    miss = [o for o in outs2 if o["status"] == "missing" and tuple(o["detail"].split(".")) in set(optional)]
+    rep.check(rule, v2.qual, "every optional key omitted at once", not miss and bool(outs2), what_bad=f"stops on the optional key {miss[0]['detail'] if miss else ''}", what_ok="the normaliser completes", loc=v2.loc())
+    if n < 10:
+        raise AnalysisError("configure_v2: fewer optional keys than confirmed by hand")
     im = prog.func("model.init_module")
-    ok = any(isinstance(n, ast.Call) and isinstance(n.func, ast.Attribute) and n.func.attr == "get" and n.args and isinstance(n.args[0], ast.Constant) and n.args[0].value == "module" and len(n.args) == 2 for n in walk_no_nested(im.node))
+    ok = any(isinstance(n_, ast.Call) and isinstance(n_.func, ast.Attribute) and n_.func.attr == "get" and n_.args and isinstance(n_.args[0], ast.Constant) and n_.args[0].value == "module" and len(n_.args) == 2 for n_ in walk_no_nested(im.node))
     rep.check(rule, im.qual, "consumer: module is optional (conf_dict.get('module', default))", ok, what_bad="init_module requires an explicit module", what_ok="optional", loc=im.loc())
 
 
@@ -209,26 +185,54 @@ def one_path(prog: Program, rep: Report) -> None:
     rep.check(rule, v1.qual, "configure_v1 returns the translated dict", len(rets) == 1 and unparse(rets[0].value) == "conf2", what_bad=f"{[unparse(r.value) for r in rets if r.value is not None]}", what_ok="conf2", loc=v1.loc())
 
 
+def v2_outcomes(prog: Program, present=(), absent=(), default_presence=True, none_paths=()):
+    """configure_v2 evaluated in place on a symbolic v2 file -> outcomes (overlay = what it wrote)."""
+    from ..confeval import Scenario, Sym, run_function
+
+    _V1_CACHE = prog.__dict__.setdefault("_conf_cache", {})
+    key = ("v2", default_presence, tuple(sorted(present)), tuple(sorted(absent)), tuple(sorted(none_paths)))
+    if key not in _V1_CACHE:
+        sc = Scenario(present=present, absent=absent, default_presence=default_presence, none_paths=none_paths)
+        _V1_CACHE[key] = run_function(prog, "configure", "configure_v2", lambda: {"config": Sym(())}, sc)
+    return _V1_CACHE[key]
+
+
+SORTED_FIRST = r"sorted\((list\()?Path\(<{f}>\)\.parent\.glob\(Path\(<{f}>\)\.name\)\)?\)\[0\]"
+
+
 def wildcard(prog: Program, rep: Report) -> None:
     rule = "R18.5"
-    for name, root in (("configure_v1", "conf2"), ("configure_v2", "config")):
-        fi = cfg(prog, name)
-        src = unparse(fi.node)
-        globs = [n for n in walk_no_nested(fi.node) if isinstance(n, ast.Call) and isinstance(n.func, ast.Attribute) and n.func.attr == "glob"]
-        ok_glob = len(globs) == 1 and unparse(globs[0].func.value) == "directory" and unparse(globs[0].args[0]) == "filename.name"
-        firsts = [n for n in walk_no_nested(fi.node) if isinstance(n, ast.Subscript) and unparse(n.slice) == "0" and isinstance(n.value, ast.Call) and unparse(n.value.func) == "sorted"]
-        wild = [n for n in walk_no_nested(fi.node) if isinstance(n, ast.If) and "'*' in str(filename)" in unparse(n.test) and "'?' in str(filename)" in unparse(n.test)]
-        fn = [n for n in walk_no_nested(fi.node) if isinstance(n, ast.Assign) and unparse(n.targets[0]) == "filename" and "forcing" in unparse(n.value) and "filename" in unparse(n.value)]
-        store = [n for n in walk_no_nested(fi.node) if isinstance(n, ast.Assign) and unparse(n.targets[0]) == f"{root}['grid']['filename']" and unparse(n.value) == "filename"]
-        rep.check(rule, fi.qual, "grid file defaults to the forcing file; a wildcard resolves to the sorted first match", ok_glob and len(firsts) == 1 and len(wild) == 1 and bool(fn) and len(store) == 1, what_bad=f"glob ok={ok_glob}, sorted(...)[0] sites={len(firsts)}, wildcard tests={len(wild)}, filename from forcing={bool(fn)}, store={len(store)}", what_ok="sorted(directory.glob(name))[0]", loc=fi.loc())
+    import re as _re
+
+    from ..confeval import Opaque, Sym, text_of
+
+    def judge(fi, values, fsym: str, label: str):
+        """values: grid file names over the outcomes of the scenario 'no grid file given'."""
+        plain = _re.compile(r"(Path\()?<" + _re.escape(fsym) + r">\)?$")
+        first = _re.compile(SORTED_FIRST.format(f=_re.escape(fsym)) + "$")
+        texts = sorted({text_of(v) for v in values})
+        kinds = {"plain" if plain.match(t) else "sorted-first" if first.match(t) else "other" for t in texts}
+        rep.check(rule, fi.qual, label, kinds == {"plain", "sorted-first"}, what_bad=f"without a grid file the grid file name becomes {texts}: it must be the forcing file, or for a wildcard name the first match of that pattern, in its own directory, in sorted order", what_ok="forcing file / sorted(directory.glob(name))[0]", loc=fi.loc())
+
     v1 = cfg(prog, "configure_v1")
-    w = section_writes(v1, "conf2")
-    gm = [unparse(n.value) for s, k, n in w if s == "grid" and k == "module"]
-    fm = [unparse(n.value) for s, k, n in w if s == "forcing" and k == "module"]
-    rep.check(rule, v1.qual, "v1: grid and forcing use the same module", gm == fm and len(gm) == 2, what_bad=f"grid {gm} / forcing {fm}", what_ok="same", loc=v1.loc())
+    outs = _v1_status(rep, rule, v1, v1_outcomes(prog, True, present=[("gridforce", "input_file")], absent=[("gridforce", "gridfile"), ("files", "gridfile")]), "v1 without gridfile")
+    judge(v1, [o["result"].get("grid", {}).get("filename") for o in outs], "gridforce.input_file", "grid file defaults to the forcing file; a wildcard resolves to the sorted first match (v1)")
     v2 = cfg(prog, "configure_v2")
-    ok = any(isinstance(n, ast.If) and "'module' not in config['grid']" in unparse(n.test) and any(unparse(x) == "config['grid']['module'] = config['forcing']['module']" for x in n.body) for n in walk_no_nested(v2.node))
-    rep.check(rule, v2.qual, "v2: an omitted grid module is the forcing module", ok, what_bad="grid module not inherited from forcing", what_ok="inherited", loc=v2.loc())
+    outs2 = [o for o in v2_outcomes(prog, absent=[("grid",)]) if o["status"] == "ok"]
+    bad2 = [o for o in v2_outcomes(prog, absent=[("grid",)]) if o["status"] != "ok"]
+    if bad2:
+        rep.add(rule, v2.qual, "v2 without grid section: evaluation", None if bad2[0]["status"] == "unsupported" else False, f"{bad2[0]['status']} {bad2[0]['detail']}", v2.loc())
+    grids = [o["overlay"].get((), {}).get("grid", {}) for o in outs2]
+    judge(v2, [g.get("filename") if isinstance(g, dict) else None for g in grids], "forcing.filename", "grid file defaults to the forcing file; a wildcard resolves to the sorted first match (v2)")
+    outs = _v1_status(rep, rule, v1, v1_outcomes(prog, True), "all optional v1 keys present")
+    pairs = {(repr(o["result"].get("grid", {}).get("module")), repr(o["result"].get("forcing", {}).get("module"))) for o in outs}
+    allowed = {repr("ladim.ROMS"), repr(Sym(("gridforce", "module")))}
+    rep.check(rule, v1.qual, "v1: grid and forcing use the same module", bool(pairs) and all(a == b and a in allowed for a, b in pairs) and len(pairs) == 2, what_bad=f"(grid, forcing) modules over the outcomes: {sorted(pairs)}; both must be the gridforce module, or ladim.ROMS for the legacy ladim1 name", what_ok="same", loc=v1.loc())
+    mods = {repr(g.get("module")) if isinstance(g, dict) else "?" for g in grids}
+    rep.check(rule, v2.qual, "v2: an omitted grid module is the forcing module", bool(grids) and mods == {repr(Sym(("forcing", "module")))}, what_bad=f"with the grid section omitted the grid module becomes {sorted(mods)}", what_ok="inherited", loc=v2.loc())
+    nomod = [o for o in v2_outcomes(prog, absent=[("grid",), ("forcing", "module")]) if o["status"] == "ok"]
+    okn = bool(nomod) and all("module" not in o["overlay"].get((), {}).get("grid", {}) for o in nomod)
+    rep.check(rule, v2.qual, "v2: without any module entry the default classes are used (no module written)", okn and len(nomod) == len(v2_outcomes(prog, absent=[("grid",), ("forcing", "module")])), what_bad="a v2 file that names no module does not get through the normaliser", what_ok="left to init_module's default", loc=v2.loc())
 
 
 V1_MAP = [
@@ -249,348 +253,94 @@ V1_MAP = [
 ]
 
 
+def v1_outcomes(prog: Program, default_presence: bool, present=(), absent=()):
+    """configure_v1 evaluated on a symbolic v1 file (sa/confeval.py) -> list of outcomes."""
+    from ..confeval import Scenario, Sym, run_function
+
+    _V1_CACHE = prog.__dict__.setdefault("_conf_cache", {})  # per Program object: never shared between trees
+    key = ("v1", default_presence, tuple(sorted(present)), tuple(sorted(absent)))
+    if key not in _V1_CACHE:
+        # assumption (recorded in the evidence): the v1 vocabulary has no warm_start section
+        sc = Scenario(present=present, absent=list(absent) + [("warm_start",)], default_presence=default_presence)
+        _V1_CACHE[key] = run_function(prog, "configure", "configure_v1", lambda: {"config": Sym(())}, sc)
+    return _V1_CACHE[key]
+
+
+
+def _v1_status(rep: Report, rule: str, v1, outs, label: str) -> list:
+    """Outcomes that produced a dictionary; anything else is reported once."""
+    good = [o for o in outs if o["status"] == "ok" and isinstance(o["result"], dict)]
+    unsup = [o for o in outs if o["status"] == "unsupported"]
+    bad = [o for o in outs if o["status"] in ("missing", "stopped") or (o["status"] == "ok" and not isinstance(o["result"], dict))]
+    if unsup:
+        rep.add(rule, v1.qual, f"{label}: evaluation of configure_v1", None, f"outside the evaluator: {unsup[0]['detail']}", v1.loc())
+    if bad:
+        o = bad[0]
+        rep.bad(rule, v1.qual, f"{label}: configure_v1 returns the translated dictionary on every path", f"outcome {o['status']} {o['detail']} (choices {[k[2] + '=' + str(v) for k, v in o['choices'].items()]})", v1.loc())
+    return good
+
+
 def v1_translation(prog: Program, rep: Report) -> None:
     rule = "R18.6"
-    from ..program import expand_locals
+    from ..confeval import Sym, SymRest
 
     v1 = cfg(prog, "configure_v1")
-    got = {}
-
-    def xv(e):  # value with single-assignment temporaries substituted
-        return unparse(expand_locals(e, v1.node))
-
-    for n in walk_no_nested(v1.node):
-        if isinstance(n, ast.Assign):
-            for t in n.targets:
-                if isinstance(t, ast.Subscript) and isinstance(t.slice, ast.Constant) and isinstance(t.value, ast.Subscript) and unparse(t.value.value) == "conf2" and isinstance(t.value.slice, ast.Constant):
-                    got.setdefault((t.value.slice.value, t.slice.value), []).append(xv(n.value))
-                if isinstance(t, ast.Subscript) and unparse(t.value) == "conf2" and isinstance(t.slice, ast.Constant) and isinstance(n.value, ast.Call) and unparse(n.value.func) == "dict":
-                    for kw in n.value.keywords:
-                        got.setdefault((t.slice.value, kw.arg), []).append(xv(kw.value))
+    outs = _v1_status(rep, rule, v1, v1_outcomes(prog, True), "all optional v1 keys present")
     for sec, key, src in V1_MAP:
-        vals = got.get((sec, key), [])
-        rep.check(rule, v1.qual, f"{sec}.{key} <- {src}", src in vals, what_bad=f"translated from {vals}: the v1 file would describe a different simulation than its v2 spelling", what_ok="same meaning", loc=v1.loc())
+        if src == "True":
+            continue
+        path = tuple(ast.literal_eval(x) for x in __import__("re").findall(r"\[('[^']*')\]", src))
+        vals = [o["result"].get(sec, {}).get(key, "<absent>") if isinstance(o["result"].get(sec), dict) else "<no section>" for o in outs]
+        present = [v for v in vals if v != "<absent>"]
+        ok = bool(present) and all(v == Sym(path) for v in present)
+        rep.check(rule, v1.qual, f"{sec}.{key} <- {src}", ok, what_bad=f"translated as {sorted({repr(v) for v in vals})[:3]}: the v1 file would describe a different simulation than its v2 spelling", what_ok="same meaning", loc=v1.loc())
     # continuous only when release_type == 'continuous'
-    cont = [n for n in walk_no_nested(v1.node) if isinstance(n, ast.If) and "release_type" in unparse(n.test) and "== 'continuous'" in unparse(n.test)]
-    rep.check(rule, v1.qual, "continuous release only for release_type == 'continuous'", len(cont) == 1 and any("conf2['release']['continuous'] = True" == unparse(x) for x in cont[0].body), what_bad="release type translation", what_ok="ok", loc=v1.loc())
+    with_c = [o for o in outs if o["result"].get("release", {}).get("continuous") is True]
+    without = [o for o in outs if "continuous" not in o["result"].get("release", {})]
+    noreltype = _v1_status(rep, rule, v1, v1_outcomes(prog, True, absent=[("particle_release", "release_type")]), "no release_type")
+    ok = bool(with_c) and bool(without) and all("continuous" not in o["result"].get("release", {}) and "release_frequency" not in o["result"].get("release", {}) for o in noreltype) and all(o["result"]["release"].get("release_frequency") == Sym(("particle_release", "release_frequency")) for o in with_c) and all("release_frequency" not in o["result"]["release"] for o in without)
+    rep.check(rule, v1.qual, "continuous release only for release_type == 'continuous'", ok, what_bad=f"{len(with_c)} outcome(s) continuous, {len(without)} discrete; without a release_type entry: {[sorted(o['result'].get('release', {})) for o in noreltype][:2]}: a discrete v1 file must stay discrete, a continuous one must carry its frequency", what_ok="continuous iff release_type == 'continuous'", loc=v1.loc())
     # output variables: encoding.datatype <- ncformat, attributes <- the rest
-    enc = []
-    for f in prog.module("configure").functions.values():
-        src_f = unparse(f.node)
-        if ".pop('ncformat')" in src_f and "datatype" in src_f and "encoding" in src_f and "attributes" in src_f:
-            enc.append(f.qual)
-    rep.check(rule, v1.qual, "output variables: encoding.datatype <- ncformat, attributes <- remaining keys", len(enc) >= 1, what_bad="the v1 `ncformat` entry is not translated into encoding.datatype", what_ok=f"in {enc}", loc=v1.loc())
-    loops = {unparse(n.iter): n for n in walk_no_nested(v1.node) if isinstance(n, ast.For)}
-    rep.check(rule, v1.qual, "instance / particle output variable lists", "config['output_variables']['instance']" in loops and "config['output_variables']['particle']" in loops, what_bad=f"{list(loops)}", what_ok="ok", loc=v1.loc())
-    for it, sec in (("config['output_variables']['instance']", "instance_variables"), ("config['output_variables']['particle']", "particle_variables")):
-        lp = loops.get(it)
-        ok = lp is not None and all(f"conf2['output']['{sec}'][var]" in unparse(s) for s in lp.body if isinstance(s, ast.Assign) and "conf2" in unparse(s.targets[0]))
-        rep.check(rule, v1.qual, f"{it.split('[')[-1][:-1]} variables go to output.{sec}", ok, what_bad="instance and particle output variables mixed up", what_ok="ok", loc=v1.loc())
+    for kind, sec in (("instance", "instance_variables"), ("particle", "particle_variables")):
+        okv = bool(outs)
+        got = None
+        for o in outs:
+            d = o["result"].get("output", {}).get(sec)
+            got = d
+            want_key = Sym(("output_variables", kind, "*"))
+            if not (isinstance(d, dict) and list(d.keys()) == [want_key]):
+                okv = False
+                break
+            ent = d[want_key]
+            okv = okv and isinstance(ent, dict) and isinstance(ent.get("encoding"), dict) and ent["encoding"].get("datatype") == Sym(("output_variables", "*", "ncformat")) and ent.get("attributes") == SymRest(("output_variables", "*"), {"ncformat"}) and set(ent) == {"encoding", "attributes"}
+        rep.check(rule, v1.qual, f"{kind} output variables go to output.{sec}: encoding.datatype <- ncformat, attributes <- remaining keys", okv, what_bad=f"output.{sec} = {got!r}", what_ok="per variable: encoding.datatype, attributes", loc=v1.loc())
 
 
-# ---------------------------------------------------------------------------
-# R18.7 v1 file names: a small evaluator over presence cases of the legacy keys
-# ---------------------------------------------------------------------------
-class _Sym:
-    """A value taken from the input file (assumed a non-empty string)."""
-
-    def __init__(self, path):
-        self.path = path
-
-    def __repr__(self):
-        return f"<{self.path}>"
-
-    def __eq__(self, o):
-        return isinstance(o, _Sym) and o.path == self.path
-
-    def __hash__(self):
-        return hash(self.path)
-
-
-class _Derived:
-    """Result of an uninterpreted call / attribute over values: remembers which inputs it mentions."""
-
-    def __init__(self, syms, text=""):
-        self.syms = frozenset(syms)
-        self.text = text
-
-    def __repr__(self):
-        return f"derived{sorted(s.path for s in self.syms)}"
-
-
-class _Sec:
-    def __init__(self, name):
-        self.name = name
-
-
-class _KeyErr(Exception):
-    pass
-
-
-class _Fork(Exception):
-    def __init__(self, node):
-        self.node = node
-
-
-class _Unsupported(Exception):
-    pass
-
-
-def _syms_of(v):
-    if isinstance(v, _Sym):
-        return {v}
-    if isinstance(v, _Derived):
-        return set(v.syms)
-    if isinstance(v, (list, tuple)):
-        out = set()
-        for x in v:
-            out |= _syms_of(x)
-        return out
-    return set()
-
-
-class _ConfEval:
-    def __init__(self, present: set, choices: dict, cfgname: str = "config"):
-        self.present = present  # {(section, key)}
-        self.choices = choices  # id(test node) -> bool, for tests that cannot be decided
-        self.env: dict = {cfgname: "CONFIG"}
-        self.cfgname = cfgname
-
-    def truth(self, v, node):
-        if isinstance(v, bool):
-            return v
-        if v is None:
-            return False
-        if isinstance(v, (_Sym, _Derived)):
-            return True if isinstance(v, _Sym) or v.syms else self._choice(node)
-        if isinstance(v, (str, int, float, dict, list, tuple)):
-            return bool(v)
-        return self._choice(node)
-
-    def _choice(self, node):
-        k = (node.lineno, node.col_offset)
-        if k not in self.choices:
-            raise _Fork(k)
-        return self.choices[k]
-
-    def ev(self, e):
-        if isinstance(e, ast.Constant):
-            return e.value
-        if isinstance(e, ast.Name):
-            if e.id in self.env:
-                return self.env[e.id]
-            return _Derived(set(), e.id)
-        if isinstance(e, ast.Subscript):
-            b = self.ev(e.value)
-            k = self.ev(e.slice)
-            if b == "CONFIG" and isinstance(k, str):
-                return _Sec(k)
-            if isinstance(b, _Sec) and isinstance(k, str):
-                if (b.name, k) in self.present:
-                    return _Sym(f"{b.name}.{k}")
-                if (b.name, k) in self.absent_tracked:
-                    raise _KeyErr(f"{b.name}.{k}")
-                return _Sym(f"{b.name}.{k}")  # keys outside the studied ones: present
-            if isinstance(b, dict):
-                if isinstance(k, (str, int)) and k in b:
-                    return b[k]
-                raise _KeyErr(str(k))
-            return _Derived(_syms_of(b) | _syms_of(k), unparse(e))
-        if isinstance(e, ast.Compare) and len(e.ops) == 1 and isinstance(e.ops[0], (ast.In, ast.NotIn)):
-            k = self.ev(e.left)
-            c = self.ev(e.comparators[0])
-            neg = isinstance(e.ops[0], ast.NotIn)
-            if isinstance(c, _Sec) and isinstance(k, str):
-                if (c.name, k) in self.present:
-                    r = True
-                elif (c.name, k) in self.absent_tracked:
-                    r = False
-                else:
-                    return self._choice(e) ^ neg
-                return r ^ neg
-            if isinstance(c, dict) and isinstance(k, (str, int)):
-                return (k in c) ^ neg
-            if c == "CONFIG" and isinstance(k, str):
-                return True ^ neg if k in ("gridforce", "files") else self._choice(e) ^ neg
-            return self._choice(e) ^ neg
-        if isinstance(e, ast.Compare):
-            return self._choice(e)
-        if isinstance(e, ast.BoolOp):
-            if isinstance(e.op, ast.And):
-                v = True
-                for x in e.values:
-                    v = self.ev(x)
-                    if not self.truth(v, x):
-                        return v
-                return v
-            v = False
-            for x in e.values:
-                v = self.ev(x)
-                if self.truth(v, x):
-                    return v
-            return v
-        if isinstance(e, ast.UnaryOp) and isinstance(e.op, ast.Not):
-            return not self.truth(self.ev(e.operand), e.operand)
-        if isinstance(e, ast.IfExp):
-            return self.ev(e.body) if self.truth(self.ev(e.test), e.test) else self.ev(e.orelse)
-        if isinstance(e, ast.Dict):
-            return {self.ev(k): self.ev(v) for k, v in zip(e.keys, e.values) if k is not None}
-        if isinstance(e, ast.Call):
-            fn = unparse(e.func)
-            if fn == "dict" and not e.args:
-                return {kw.arg: self.ev(kw.value) for kw in e.keywords if kw.arg}
-            if isinstance(e.func, ast.Attribute) and e.func.attr == "get" and 1 <= len(e.args) <= 2:
-                b = self.ev(e.func.value)
-                k = self.ev(e.args[0])
-                dflt = self.ev(e.args[1]) if len(e.args) == 2 else None
-                if isinstance(b, _Sec) and isinstance(k, str):
-                    if (b.name, k) in self.present:
-                        return _Sym(f"{b.name}.{k}")
-                    if (b.name, k) in self.absent_tracked:
-                        return dflt
-                    return _Sym(f"{b.name}.{k}")
-                if isinstance(b, dict):
-                    return b.get(k, dflt)
-            if isinstance(e.func, ast.Attribute) and e.func.attr in ("copy",) and not e.args:
-                b = self.ev(e.func.value)
-                if isinstance(b, dict):
-                    return dict(b)
-            vals = [self.ev(a) for a in e.args] + [self.ev(k.value) for k in e.keywords]
-            recv = self.ev(e.func.value) if isinstance(e.func, ast.Attribute) else None
-            return _Derived(_syms_of(vals) | _syms_of(recv), unparse(e)[:40])
-        if isinstance(e, ast.Attribute):
-            b = self.ev(e.value)
-            return _Derived(_syms_of(b), unparse(e))
-        if isinstance(e, (ast.Tuple, ast.List)):
-            return [self.ev(x) for x in e.elts]
-        if isinstance(e, ast.JoinedStr):
-            return _Derived(set().union(*[_syms_of(self.ev(v.value)) for v in e.values if isinstance(v, ast.FormattedValue)]) if any(isinstance(v, ast.FormattedValue) for v in e.values) else set(), "fstring")
-        if isinstance(e, ast.BinOp):
-            return _Derived(_syms_of(self.ev(e.left)) | _syms_of(self.ev(e.right)), unparse(e)[:40])
-        raise _Unsupported(unparse(e)[:60])
-
-    absent_tracked: set = set()
-
-    def store(self, t, v):
-        if isinstance(t, ast.Name):
-            self.env[t.id] = v
-            return
-        if isinstance(t, ast.Subscript):
-            b = self.ev(t.value)
-            k = self.ev(t.slice)
-            if isinstance(b, dict) and isinstance(k, (str, int)):
-                b[k] = v
-                return
-            if isinstance(b, (_Sec,)) or b == "CONFIG":
-                return  # writes into the input configuration: not part of the result studied here
-            return
-        if isinstance(t, (ast.Tuple, ast.List)) and isinstance(v, list) and len(v) == len(t.elts):
-            for a, b in zip(t.elts, v):
-                self.store(a, b)
-            return
-        raise _Unsupported(unparse(t)[:60])
-
-    def run(self, stmts):
-        for st in stmts:
-            if isinstance(st, (ast.Assign, ast.AnnAssign)):
-                if st.value is None:
-                    continue
-                v = self.ev(st.value)
-                for t in st.targets if isinstance(st, ast.Assign) else [st.target]:
-                    self.store(t, v)
-            elif isinstance(st, ast.If):
-                self.run(st.body if self.truth(self.ev(st.test), st.test) else st.orelse)
-            elif isinstance(st, ast.Expr):
-                continue
-            elif isinstance(st, ast.Return):
-                self.result = self.ev(st.value) if st.value is not None else None
-                return
-            elif isinstance(st, ast.Pass):
-                continue
-            else:
-                raise _Unsupported(short(st))
-
-
-def _relevant_slice(fn: ast.FunctionDef, wanted=(("forcing", "filename"), ("grid", "filename"))):
-    """Top-level statements of `fn` that can affect conf2[sec][key] for the wanted pairs: those writing
-    conf2[sec] / conf2[sec][key] (or all of conf2), plus the definitions of the local names they read."""
-    secs = {s for s, _ in wanted}
-    names: set = set()
-    rel: list = []
-
-    def writes_wanted(st) -> bool:
-        for x in ast.walk(st):
-            if isinstance(x, ast.Subscript) and isinstance(x.ctx, ast.Store):
-                txt = unparse(x)
-                for s_, k_ in wanted:
-                    if txt in (f"conf2['{s_}']['{k_}']", f"conf2['{s_}']"):
-                        return True
-            if isinstance(x, ast.Name) and isinstance(x.ctx, ast.Store) and x.id == "conf2":
-                return True
-        return False
-
-    def reads(st) -> set:
-        return {x.id for x in ast.walk(st) if isinstance(x, ast.Name) and isinstance(x.ctx, ast.Load)}
-
-    def stores(st) -> set:
-        return {x.id for x in ast.walk(st) if isinstance(x, ast.Name) and isinstance(x.ctx, ast.Store)}
-
-    body = [st for st in fn.body if not (isinstance(st, ast.Expr) and isinstance(st.value, ast.Constant))]
-    changed = True
-    chosen: set = set()
-    while changed:
-        changed = False
-        for i, st in enumerate(body):
-            if i in chosen:
-                continue
-            if writes_wanted(st) or (stores(st) & names):
-                chosen.add(i)
-                names |= reads(st)
-                changed = True
-    return [body[i] for i in sorted(chosen)]
-
-
+# R18.7 v1 file names over the presence cases of the legacy keys (evaluated by sa/confeval.py)
 def v1_filenames(prog: Program, rep: Report) -> None:
     rule = "R18.7"
     import itertools
 
+    from ..confeval import Opaque, Sym, syms_of
+
     v1 = cfg(prog, "configure_v1")
-    sl = _relevant_slice(v1.node)
-    if len(sl) < 3:
-        raise AnalysisError("configure_v1: statements producing forcing.filename / grid.filename not found")
     keys = [("gridforce", "input_file"), ("files", "input_file"), ("gridforce", "gridfile"), ("files", "gridfile")]
     for combo in itertools.product((True, False), repeat=4):
-        present = {k for k, on in zip(keys, combo) if on}
-        label = ", ".join(f"{s}.{k}" for s, k in keys if (s, k) in present) or "neither name given"
-        want_f = _Sym("gridforce.input_file") if keys[0] in present else _Sym("files.input_file") if keys[1] in present else ""
-        want_g = _Sym("gridforce.gridfile") if keys[2] in present else _Sym("files.gridfile") if keys[3] in present else None
-        pending = [dict()]
-        outcomes = []
-        guard = 0
-        while pending and guard < 64:
-            guard += 1
-            ch = pending.pop()
-            ev = _ConfEval(present, ch)
-            ev.absent_tracked = set(keys) - present
-            try:
-                ev.run(sl)
-                outcomes.append((ch, ev.env.get("conf2")))
-            except _Fork as f:
-                pending.append({**ch, f.node: True})
-                pending.append({**ch, f.node: False})
-            except _KeyErr as e:
-                outcomes.append((ch, f"KeyError {e}"))
-            except _Unsupported as e:
-                outcomes.append((ch, f"unsupported {e}"))
-        bad = []
-        undecided = []
-        for ch, c2 in outcomes:
-            if isinstance(c2, str):
-                (undecided if c2.startswith("unsupported") else bad).append(c2)
+        present = [k for k, on in zip(keys, combo) if on]
+        absent = [k for k, on in zip(keys, combo) if not on]
+        label = ", ".join(f"{s_}.{k}" for s_, k in present) or "neither name given"
+        want_f = Sym(keys[0]) if keys[0] in present else Sym(keys[1]) if keys[1] in present else ""
+        want_g = Sym(keys[2]) if keys[2] in present else Sym(keys[3]) if keys[3] in present else None
+        outs = v1_outcomes(prog, True, present=present, absent=absent)
+        bad, undecided = [], []
+        for o in outs:
+            if o["status"] == "unsupported":
+                undecided.append(o["detail"])
                 continue
-            if not isinstance(c2, dict):
-                undecided.append("conf2 not built")
+            if o["status"] != "ok" or not isinstance(o["result"], dict):
+                bad.append(f"configure_v1 ends with {o['status']} {o['detail']}")
                 continue
+            c2 = o["result"]
             f = c2.get("forcing", {}).get("filename", "<missing>") if isinstance(c2.get("forcing"), dict) else "<missing>"
             g = c2.get("grid", {}).get("filename", "<missing>") if isinstance(c2.get("grid"), dict) else "<missing>"
             if f != want_f:
@@ -602,12 +352,12 @@ def v1_filenames(prog: Program, rep: Report) -> None:
                 if g not in ("", None):
                     bad.append(f"grid.filename = {g!r} although neither a grid nor a forcing file is named")
             else:
-                if not (isinstance(g, _Derived) and want_f in g.syms or g == want_f):
+                if not (g == want_f or want_f in syms_of(g)):
                     bad.append(f"grid.filename = {g!r}; without a gridfile entry it must be derived from the forcing file {want_f!r}")
         if undecided and not bad:
             rep.add(rule, v1.qual, f"v1 file names, {label}", None, f"outside the evaluator: {undecided[0]}", v1.loc())
         else:
-            rep.check(rule, v1.qual, f"v1 file names, {label}", not bad, what_bad="; ".join(sorted(set(bad))[:3]) + ": the legacy spelling runs with other files than its v2 spelling", what_ok=f"forcing <- {want_f!r}, grid <- {want_g!r}" if want_g is not None else f"forcing <- {want_f!r}, grid defaults to the forcing file", loc=v1.loc())
+            rep.check(rule, v1.qual, f"v1 file names, {label}", not bad and bool(outs), what_bad="; ".join(sorted(set(bad))[:3]) + ": the legacy spelling runs with other files than its v2 spelling", what_ok=f"forcing <- {want_f!r}, grid <- {want_g!r}" if want_g is not None else f"forcing <- {want_f!r}, grid defaults to the forcing file", loc=v1.loc())
 
 
 def run(prog: Program, rep: Report, tier: str) -> None:
@@ -641,6 +391,9 @@ from ..selftest import Mut  # noqa: E402
 
 CF = "ladim/configure.py"
 AUDIT = [
+    Mut("benign-v2-sections-setdefault", CF, '''    if "state" not in config:\n        config["state"] = dict()\n    if "grid" not in config:\n        config["grid"] = dict()\n    if "ibm" not in config:\n        config["ibm"] = dict()\n    if "warm_start" not in config:\n        config["warm_start"] = dict()\n''', '''    for section in ("state", "grid", "ibm", "warm_start"):\n        config.setdefault(section, {})\n''', expect="silent"),
+    Mut("v2-grid-module-from-wrong-section", CF, '''        config["grid"]["module"] = config["forcing"]["module"]''', '''        config["grid"]["module"] = config["output"]["module"]''', rule="R18.5"),
+    Mut("benign-v1-release-temporaries", CF, '''        conf2["release"]["release_frequency"] = config["particle_release"][\n            "release_frequency"\n        ]''', '''        freq = config["particle_release"]["release_frequency"]\n        conf2["release"]["release_frequency"] = freq''', expect="silent"),
     Mut("v1-gridfile-files-only", CF, '''    if "gridfile" in config["gridforce"]:\n        conf2["grid"]["filename"] = config["gridforce"]["gridfile"]\n    elif "gridfile" in config["files"]:\n        conf2["grid"]["filename"] = config["files"]["gridfile"]\n    else:\n        conf2["grid"]["filename"] = ""\n''', '''    conf2["grid"]["filename"] = config["files"].get("gridfile", "")\n''', rule="R18.7"),
     Mut("v1-gridfile-priority-swapped", CF, '''    if "gridfile" in config["gridforce"]:\n        conf2["grid"]["filename"] = config["gridforce"]["gridfile"]\n    elif "gridfile" in config["files"]:\n        conf2["grid"]["filename"] = config["files"]["gridfile"]\n    else:\n        conf2["grid"]["filename"] = ""\n''', '''    if "gridfile" in config["files"]:\n        conf2["grid"]["filename"] = config["files"]["gridfile"]\n    elif "gridfile" in config["gridforce"]:\n        conf2["grid"]["filename"] = config["gridforce"]["gridfile"]\n    else:\n        conf2["grid"]["filename"] = ""\n''', rule="R18.7"),
     Mut("benign-v1-gridfile-get-chain", CF, '''    if "gridfile" in config["gridforce"]:\n        conf2["grid"]["filename"] = config["gridforce"]["gridfile"]\n    elif "gridfile" in config["files"]:\n        conf2["grid"]["filename"] = config["files"]["gridfile"]\n    else:\n        conf2["grid"]["filename"] = ""\n''', '''    conf2["grid"]["filename"] = config["gridforce"].get("gridfile", config["files"].get("gridfile", ""))\n''', expect="silent"),
